@@ -282,5 +282,13 @@ PROPS['C11'] = dict(
          U('ripser_n3_p5', 'C11_ripser.cpp', ['VP_N=3', 'VP_P=5', 'VP_DMAX=3'], cflags=['-U__SSE2__'], weight=5, must_reach=_t11),
          U('ripser_n4_p2_cross', 'C11_ripser.cpp', ['VP_N=4', 'VP_P=2', 'VP_DMAX=3', 'VP_CROSS'], cflags=['-U__SSE2__'], tiers=['thorough'], weight=60, must_reach=_t11), U('ripser_n5_p2', 'C11_ripser.cpp', ['VP_N=5', 'VP_P=2', 'VP_DMAX=2'], cflags=['-U__SSE2__'], tiers=['thorough'], weight=60, must_reach=_t11), U('ripser_n5_p3', 'C11_ripser.cpp', ['VP_N=5', 'VP_P=3', 'VP_DMAX=2'], cflags=['-U__SSE2__'], tiers=['thorough'], weight=60, must_reach=_t11)])
 
+# ------------------------------------------------------------------------------------------------ C18
+PROPS['C18'] = dict(
+  explanation='Bounded symbolic execution of the real Persistence_landscape (construction from a diagram, evaluation, +, -, *, abs, average, integrals, L^p and sup distances, inner product) and Persistence_landscape_on_grid (clang IR of the headers in /repo): the interval endpoints are finite-grid doubles forked to concrete dyadic values by the solver, so the library arithmetic is exact host IEEE arithmetic and every quantity is compared EXACTLY with the definition (k-th largest tent value at every quarter point, Simpson integrals that are exact for piecewise linear/quadratic functions with half-integer breakpoints).',
+  bounds=dict(quick='diagrams of m=2 intervals with births in {0..3} and lengths in {1..3} (repeated, nested, touching), all levels, all quarter points of [-0.5,7.5]; pairs of such diagrams for the algebra/distances; gridded form on [0,7] with 14 cells', thorough='m=3 intervals'),
+  outside=['non-dyadic data (comparison would need error bounds)', 'exponents p other than 1, 2, infinity', 'file constructors (iostream)'],
+  units=[U('land_pointwise_m2', 'C18_landscape.cpp', ['VP_M=2', 'VP_MODE=0'], weight=5, must_reach=['end', 'pointwise']), U('land_algebra_m2', 'C18_landscape.cpp', ['VP_M=2', 'VP_MODE=1'], weight=10, must_reach=['end', 'algebra']),
+         U('land_pointwise_m3', 'C18_landscape.cpp', ['VP_M=3', 'VP_MODE=0'], tiers=['thorough'], weight=30, must_reach=['end']), U('land_algebra_m3', 'C18_landscape.cpp', ['VP_M=3', 'VP_MODE=1'], tiers=['thorough'], weight=60, must_reach=['end'])])
+
 NOT_APPLICABLE = {}
 NOTES = 'Clauses outside every claim: real thread schedules/TBB execution (engine is sequential), iostream text I/O, GMP arbitrary precision, Eigen-based Coxeter point location under general affine maps, SIMD paths of boost::unordered_flat_map (compiled with -U__SSE2__), allocation failure, inputs beyond the stated bounds.'
